@@ -91,7 +91,8 @@ class OperatorGraphTemplate(AbstractBaseTemplate):
         if operators:
             operators = _update_operators(self.operators, operators)
         else:
-            operators = self.operators
+            # (the new template gets its own value dictionaries: `update_var` on it must not reach this template)
+            operators = {op: dict(values) for op, values in self.operators.items()}
 
         return self.__class__(name=name, path=path, operators=operators, description=description)
 
